@@ -21,7 +21,7 @@ theorem stepSim_jumpTo (L : StoreLaws S) (fuel : Nat) (H : OtherHandlers σ) {s 
     (by unfold Abs.step; rw [hfetch]; simp only [jumpTarget_some hj]; rfl) ?_
   have h := C10_refine_jump (S := S) j s
   rw [hsim.2.jumps, hj] at h
-  exact ⟨some t, s, h, rfl, rfl, hsim.2⟩
+  exact ⟨some t, s, h, rfl, rfl, hsim.2, fun _ _ h => h⟩
 
 /-- `JumpIfTrue j` / `JumpIfFalse j` -/
 theorem stepSim_jumpIfTrue (L : StoreLaws S) (fuel : Nat) (H : OtherHandlers σ) {s : σ} {m : MState F}
@@ -177,7 +177,7 @@ theorem stepSim_endExpression_return (L : StoreLaws S) (fuel : Nat) (H : OtherHa
       cases this with
       | nil => exact .nil
       | cons _ t => exact t
-    exact SimD.ofFEff hsim.2 e1 (.cons (e1.dec da) (decodesList_keeps e1.keeps hsaved))
-      (decodesList_keeps e1.keeps hvt) (framesRel_keeps e1.keeps hrest)
+    exact ⟨SimD.ofFEff hsim.2 e1 (.cons (e1.dec da) (decodesList_keeps e1.keeps hsaved))
+      (decodesList_keeps e1.keeps hvt) (framesRel_keeps e1.keeps hrest), e1.keeps.dec⟩
 
 end Garnish.Lemmas.Runtime
